@@ -39,6 +39,9 @@ def sext (w1 w2 a : Nat) : Nat := ofInt w2 (toInt w1 a)
 fits the `w`-bit target, otherwise the conversion returns `None` and `unwrap` panics -/
 def cvt (w a : Nat) : Res Nat := if a < 2 ^ w then ok a else panic
 
+/-- `a.saturating_add(b)` on an unsigned `w`-bit type -/
+def saturatingAdd (w a b : Nat) : Nat := min (a + b) (2 ^ w - 1)
+
 theorem cvt_ok {w a : Nat} (h : a < 2 ^ w) : cvt w a = ok a := by simp [cvt, h]
 
 @[simp] theorem ofBool_true : ofBool true = 1 := rfl
